@@ -7,6 +7,16 @@ The reference response is judged as in C01 (walk model + selection-semantics ora
 must have answered the same (data, error paths and classes, invocations with the arguments received). -/
 def handle (tb : Tables) (c impl : T) : String :=
   match c, impl with
+  | .node "c02e" [_], .node "l" obs =>
+    -- empty lists behind every list representation: (s STRATEGY RESPONSE-as-encoding/json-writes-it)…; the model is
+    -- the property: every representation gives the same response, and it holds a list, not null
+    let rs := obs.filterMap (fun o => match o with | .node "s" [_, r] => r.asStr | _ => none)
+    (match rs with
+     | [] => "bad-op"
+     | r :: rest =>
+       if rest.all (· == r) && (r.splitOn "null").length == 1 then "ok"
+       else if rest.all (· == r) then "mismatch spec-bad (all (list))"
+       else "mismatch spec-bad (responses differ by representation)")
   | .node "c02" [w], .node "obs" [ref, .node "l" others] =>
     let v := C01.handle tb w ref
     let diff := others.filterMap (fun o => match o with | .node "differs" (.atom n :: _) => some n | _ => none)
